@@ -207,7 +207,7 @@ func runHistory(c CaseHist) (*histRun, *vkit.Failure) {
 			}))
 		}
 		cg := CaseGraph{Spec: c.Spec, Input: in, Paradigm: rec.Paradigm}
-		out, rerr := runSpec(ctx, r, env, cg, opts...)
+		out, rerr := runSpec(gkit.WithCall(ctx, callIdx), r, env, cg, opts...)
 		rec.Err = rerr
 		rec.Out = out
 		rec.Sets = store.SetsInCall(callIdx)
